@@ -10,6 +10,7 @@ import (
 	"net"
 	"os"
 	"path/filepath"
+	"strings"
 	"sync"
 	"testing"
 	"time"
@@ -31,10 +32,65 @@ func verifChdirRoot() {
 		for d := wd; d != "/"; d = filepath.Dir(d) {
 			if _, err := os.Stat(filepath.Join(d, "go.mod")); err == nil {
 				_ = os.Chdir(d)
+				if os.Getenv("VERIF_CUSTOM_PROFILES") == "1" {
+					verifCustomProfiles(d)
+				}
 				return
 			}
 		}
 	})
+}
+
+// verifCustomProfiles: a deployment may add profiles of its own next to the shipped ones. Work from a scratch
+// directory whose config/profiles holds the shipped YAML plus two derived from vllm.yaml:
+//
+//	verifoff  a backend kind whose profile has an anthropic_support block that is switched OFF
+//	verifnoc  a backend kind that does NOT declare OpenAI compatibility
+//
+// Everything that depends on the profiles (native support, allowed types of a prefix) is read from the same
+// directory by the harness, so the expectations follow.
+func verifCustomProfiles(root string) {
+	dir, err := os.MkdirTemp("", "verif-profiles-")
+	if err != nil {
+		panic(err)
+	}
+	dst := filepath.Join(dir, "config", "profiles")
+	if err := os.MkdirAll(dst, 0o755); err != nil {
+		panic(err)
+	}
+	files, _ := filepath.Glob(filepath.Join(root, "config", "profiles", "*.yaml"))
+	for _, f := range files {
+		b, err := os.ReadFile(f)
+		if err != nil {
+			panic(err)
+		}
+		if err := os.WriteFile(filepath.Join(dst, filepath.Base(f)), b, 0o644); err != nil {
+			panic(err)
+		}
+	}
+	base, err := os.ReadFile(filepath.Join(root, "config", "profiles", "vllm.yaml"))
+	if err != nil {
+		panic(err)
+	}
+	derive := func(name string, edits ...string) {
+		y := string(base)
+		y = strings.Replace(y, "name: vllm\n", "name: "+name+"\n", 1)
+		y = strings.Replace(y, "    - vllm\n", "    - "+name+"\n", 1)
+		for i := 0; i+1 < len(edits); i += 2 {
+			if !strings.Contains(y, edits[i]) {
+				panic("custom profile: vllm.yaml no longer contains " + edits[i])
+			}
+			y = strings.Replace(y, edits[i], edits[i+1], 1)
+		}
+		if err := os.WriteFile(filepath.Join(dst, name+".yaml"), []byte(y), 0o644); err != nil {
+			panic(err)
+		}
+	}
+	derive("verifoff", "  anthropic_support:\n    enabled: true", "  anthropic_support:\n    enabled: false")
+	derive("verifnoc", "  openai_compatible: true", "  openai_compatible: false")
+	if err := os.Chdir(dir); err != nil {
+		panic(err)
+	}
 }
 
 // verifStack is one fully assembled olla (the production object graph) plus its scripted backends.
